@@ -1,7 +1,7 @@
 (** C06 — input lookup keys identify calls by alias and captured argument values only.
     Statements only.  [qp]/[qp_dec] is the quoted-printable oracle for bytes values. *)
 From Playback Require Import Base.Str Values.PyVal Values.SortFacts Values.Codec Values.CodecFacts
-  Values.KeyFormat Values.KeyFacts.
+  Values.KeyFormat Values.KeyFacts Values.JsonWf Values.JsonParse Values.JsonFacts.
 From Coq Require Import Permutation.
 
 (** Structurally equal captured values (equal up to dict / object-attribute insertion order)
@@ -33,21 +33,70 @@ Theorem C06_kwargs_order_irrelevant :
 Proof. exact kwargs_order_irrelevant. Qed.
 Print Assumptions C06_kwargs_order_irrelevant.
 
-(** Different aliases or different captured values never share a key (aliases without '=';
-    the two facts about json.dumps are premises: injective, container texts self-delimiting). *)
-Theorem C06_key_injective_partial :
-  forall qp qp_dec, (forall b, qp_dec (qp b) = b) ->
-    (forall a b, dumps a = dumps b -> a = b) ->
-    (forall a b x y, container a -> container b -> dumps a ++ x = dumps b ++ y -> a = b) ->
+(** Different aliases or different captured values never share a key.  Premises: aliases without
+    '='; the captured values are in the value domain [vdom] = [wf] (tree shaped, distinct unreserved
+    keys, no lone surrogates, see PyVal.v) and [leaves_ok] (every float carries a float.__repr__ text
+    of the grammar [float_repr_ok], every bytes value is a list of bytes); the quoted-printable oracle
+    is invertible and maps byte strings to surrogate-free text.  Nothing is assumed about json.dumps:
+    its injectivity and the self-delimiting text of containers are proved (JsonFacts.v) on the
+    well-formed trees [jwf] that [flatten] produces from such values. *)
+Theorem C06_key_injective :
+  forall qp qp_dec, (forall b, qp_dec (qp b) = b) -> (forall b, is_bytes b = true -> str_ok (qp b) = true) ->
     forall al1 al2 cap1 cap2 st1 st2 args1 k1 args2 k2 a1 kw1 a2 kw2 key,
       no_eq_sign al1 -> no_eq_sign al2 ->
       select cap1 st1 args1 k1 = Selected a1 kw1 -> select cap2 st2 args2 k2 = Selected a2 kw2 ->
-      wf a1 = true -> wf a2 = true -> wf (kwargs_value kw1) = true -> wf (kwargs_value kw2) = true ->
+      vdom a1 = true -> vdom a2 = true -> vdom (kwargs_value kw1) = true -> vdom (kwargs_value kw2) = true ->
       ikey (encode_with qp) al1 cap1 st1 args1 k1 = Some key ->
       ikey (encode_with qp) al2 cap2 st2 args2 k2 = Some key ->
       al1 = al2 /\ veq a1 a2 /\ veq (kwargs_value kw1) (kwargs_value kw2).
 Proof. exact ikey_injective. Qed.
-Print Assumptions C06_key_injective_partial.
+Print Assumptions C06_key_injective.
+
+(** The same with the concrete oracles of the correspondence runs: no premise about oracles left. *)
+Theorem C06_key_injective_concrete :
+  forall al1 al2 cap1 cap2 st1 st2 args1 k1 args2 k2 a1 kw1 a2 kw2 key,
+    no_eq_sign al1 -> no_eq_sign al2 ->
+    select cap1 st1 args1 k1 = Selected a1 kw1 -> select cap2 st2 args2 k2 = Selected a2 kw2 ->
+    vdom a1 = true -> vdom a2 = true -> vdom (kwargs_value kw1) = true -> vdom (kwargs_value kw2) = true ->
+    ikey encode al1 cap1 st1 args1 k1 = Some key -> ikey encode al2 cap2 st2 args2 k2 = Some key ->
+    al1 = al2 /\ veq a1 a2 /\ veq (kwargs_value kw1) (kwargs_value kw2).
+Proof. exact (ikey_injective qp_simple qp_dec_simple qp_simple_roundtrip qp_simple_ok). Qed.
+Print Assumptions C06_key_injective_concrete.
+
+(** The JSON layer under it: on well-formed trees the printer is injective, the text of an array or
+    object is self-delimiting (whatever follows it), and the serializer only produces such trees. *)
+Theorem C06_dumps_injective :
+  forall a b, jwf a = true -> jwf b = true -> dumps a = dumps b -> a = b.
+Proof. exact dumps_inj. Qed.
+Print Assumptions C06_dumps_injective.
+
+Theorem C06_dumps_self_delimiting :
+  forall a b x y, jwf a = true -> jwf b = true -> container a -> container b ->
+    dumps a ++ x = dumps b ++ y -> a = b /\ x = y.
+Proof. exact dumps_delim. Qed.
+Print Assumptions C06_dumps_self_delimiting.
+
+Theorem C06_flatten_well_formed :
+  forall qp, (forall b, is_bytes b = true -> str_ok (qp b) = true) ->
+    forall v, wf v = true -> leaves_ok v = true -> forall j, flatten qp v = Some j -> jwf j = true.
+Proof. exact flatten_jwf. Qed.
+Print Assumptions C06_flatten_well_formed.
+
+(** Why the domain is needed: over ALL json terms the printer is neither injective nor
+    self-delimiting (a float node whose text is not a float text; two lone surrogates against the
+    code point they encode). *)
+Theorem C06_dumps_not_injective_outside_domain_refuted :
+  (exists a b, a <> b /\ dumps a = dumps b /\ jwf a = false) /\
+  (exists a b, a <> b /\ dumps a = dumps b /\ jwf a = false /\ (forall r, a <> JFloat r)) /\
+  (exists a b x y, container a /\ container b /\ dumps a ++ x = dumps b ++ y /\ a <> b /\ jwf a = false).
+Proof.
+  split; [|split].
+  - exists (JFloat (U"null")), JNull. split; [discriminate|]. split; reflexivity.
+  - exists (JStr [55296; 56320]%N), (JStr [65536]%N). split; [discriminate|]. split; [reflexivity|]. split; [reflexivity|discriminate].
+  - exists (JArr [JFloat (U"1], [2")]), (JArr [JInt 1]), [], (U", [2]").
+    split; [exact I|]. split; [exact I|]. split; [reflexivity|]. split; [discriminate|reflexivity].
+Qed.
+Print Assumptions C06_dumps_not_injective_outside_domain_refuted.
 
 (** The serializer layer the two theorems rest on. *)
 Theorem C06_flatten_roundtrip :
@@ -75,3 +124,29 @@ Example C06_example :
   ikey encode (U"get") CapAll true [VDict [(U"b", VInt 1); (U"a", VTuple [VStr (U"x")])]; VList [VNone]] [] =
   ikey encode (U"get") CapAll true [VDict [(U"a", VTuple [VStr (U"x")]); (U"b", VInt 1)]; VList [VNone]] [].
 Proof. repeat split; try (vm_compute; reflexivity). discriminate. Qed.
+
+(** non-vacuity of the injectivity theorem: two calls whose captured values hold floats (fixed and
+    exponent notation), non-ASCII and astral text, bytes, nested containers, an object and keywords
+    meet every premise (with the concrete oracles, whose two premises are theorems), and get keys *)
+Definition ex_args : list pyval :=
+  [VFloat (U"1.5e-07"); VFloat (U"-0.0"); VFloat (U"1e+22"); VStr [233; 26085; 128512; 34; 92; 10]%N;
+   VBytes [0; 61; 65; 255]%N;
+   VDict [(U"k", VList [VTuple [VInt (-3); VNone]; VSet [VBool true]]); (U"a=b", VFloat (U"123456789.12345679"))];
+   VObj (U"lib.Pt") [(U"x", VFloat (U"0.1"))]].
+Definition ex_kw : list (str * pyval) := [(U"opt", VFloat (U"5e-324")); ([233]%N, VList [])].
+
+Example C06_injective_premises_met :
+  (forall b, qp_dec_simple (qp_simple b) = b) /\
+  (forall b, is_bytes b = true -> str_ok (qp_simple b) = true) /\
+  no_eq_sign (U"svc:{id}") /\
+  select CapAll true ex_args ex_kw = Selected (VTuple ex_args) ex_kw /\
+  vdom (VTuple ex_args) = true /\ vdom (kwargs_value ex_kw) = true /\
+  (exists key, ikey encode (U"svc:{id}") CapAll true ex_args ex_kw = Some key) /\
+  (exists j, flatten qp_simple (VTuple ex_args) = Some j /\ jwf j = true /\ loads (dumps j) = Some j).
+Proof.
+  split; [exact qp_simple_roundtrip|]. split; [exact qp_simple_ok|].
+  split; [intros C; cbn in C; repeat (destruct C as [C|C]; [discriminate|]); exact C|].
+  split; [reflexivity|]. split; [vm_compute; reflexivity|]. split; [vm_compute; reflexivity|].
+  split; [eexists; vm_compute; reflexivity|].
+  eexists. split; [vm_compute; reflexivity|]. split; vm_compute; reflexivity.
+Qed.
